@@ -142,6 +142,20 @@ def catalog():
                          "threads": [[sub("f0"), ["add_cb", "f0", "cb0"]], [["sleep", 1.0], ["complete", "ex.base.j0", "cancel"]]],
                          "settle": 0.5, "final": [["state", "f0"]]},
                 "expect": [{"done": "f0", "by": 1.0}]}
+    # X5: a cancel() of the derived future that is REFUSED (poll cancel function vetoes), later the inner future is
+    #     cancelled by someone else: the derived future must still end
+    POLLV = {"kind": "poll", "interval": 5.0, "per_sub": {"f0.fn": {"after": None}}, "cancel": [["ret", False], ["ret", True]]}
+    for lname, ls in sorted(layers.items()):
+        if lname in ("cos", "poll"):
+            continue
+        outer = [dict(ls[0], tap=True)]
+        out["X5/refused-then-external/" + lname] = {
+            "external_cancel": True,
+            "prog": {"setup": [["build", "ex", {"base": {"kind": "manual"}, "layers": [POLLV] + outer}]],
+                     "threads": [[sub("f0"), ["add_cb", "f0", "cb0"], ["sleep", 0.25], ["run", "ex", 0], ["sleep", 0.25], ["cancel", "f0"]],
+                                 [["sleep", 1.0], ["tapcancel", "ex.tap1", 0]]],
+                     "settle": 0.5, "final": [["state", "f0"]]},
+            "expect": [{"done": "f0", "by": 1.0}]}
     # flat_map: the future returned by fn is cancelled from outside / is already cancelled
     out["X3/flat_map-inner"] = {
         "external_cancel": True,
